@@ -7,6 +7,8 @@ CONSTANTS
     Ks = {2, 3}
     MaxIters = {1, 2, 3, 4}
     LCM = 60
+    ShowSwap = FALSE
+    RowSum = 0
     ShowEmpty = FALSE
     Replay = FALSE
 SPECIFICATION Spec
